@@ -231,7 +231,7 @@ Definition prefix_of (p s : string) : bool := String.prefix p s.
 
 (** Names of the theorems of Properties/C08.v a table entry may point to. *)
 Definition covering_names : list string :=
-  ["ambient_noninterference"; "rank_perm_invariant"; "pick_perm_invariant"; "verify_evidence_perm_invariant";
+  ["ambient_noninterference_partial"; "rank_perm_invariant"; "pick_perm_invariant"; "verify_evidence_perm_invariant";
    "purge_perm_invariant"; "any_order_bool_perm_invariant"; "sorted_collect_perm_invariant";
    "set_build_perm_invariant"]%string.
 
